@@ -26,6 +26,9 @@ Inductive case13 :=
 | S_crlf (s out : string)                                           (* strings.ReplaceAll(s, "\r\n", "\n") *)
 | S_tails (input : string) (tails : list N)                         (* per decoded document: trailing line breaks seen by a keep-chomped last scalar *)
 | P_res (pkg : string) (r : pkg_res) (cls : oclass) (mkdir write : string)  (* LocalPackageWriter incl. path/index defaulting *)
+(* Read, then a sequence of Writes on one LocalPackageReadWriter: per step the path annotations written,
+   whether the Write was accepted, and the set of paths handed to RemoveAll *)
+| P_seq (pkg : string) (files : list string) (steps : list (list string)) (obs : list (oclass * list string))
 | P_write (pkg ann : string) (cls : oclass) (mkdir write : string)  (* LocalPackageWriter, one resource, fresh package *)
 | A_read (index : N) (doc after : node) (nonstr : list string)      (* reader annotations set on a decoded document *)
 | A_write (doc after : node) (cls : oclass) (nonstr : list string). (* writer clearing (the filter sequence of ByteWriter) *)
@@ -49,6 +52,17 @@ Definition agree13 (c : case13) : bool :=
       | Ok (d, f) => oclass_eqb13 cls COk && String.eqb d mk && String.eqb f wr
       | x => oclass_eqb13 cls (class_of x)
       end
+  | P_seq pkg files steps obs =>
+      (fix go (rs : list (res (list string))) (os : list (oclass * list string)) : bool :=
+         match rs, os with
+         | [], [] => true
+         | r :: rs', (cls, dels) :: os' =>
+             match r with
+             | Ok ds => oclass_eqb13 cls COk && forallb (fun x => str_in x dels) ds && forallb (fun x => str_in x ds) dels
+             | _ => oclass_eqb13 cls CErr && match dels with [] => true | _ => false end
+             end && go rs' os'
+         | _, _ => false
+         end) (rw_run pkg files steps) obs
   | P_write pkg ann cls mk wr =>
       match pkg_write1 pkg ann with
       | Ok (d, f) => oclass_eqb13 cls COk && String.eqb d mk && String.eqb f wr
